@@ -22,6 +22,10 @@ PROPS = {
             "rule": "one case per TLC state of Trap.tla (designer, G, a) mapped to dimensional argument tuples, plus finished spoke assemblies of Spokes.tla; non-trivial = not at an exact ceil/floor tie (there only the requirement predicates are checked)",
             "assumptions": ["dimensionless grid G in k/4, a in k/8 plus small values (see MC_Trap.tla); 5 unit systems (dgdt, dt)", "float tolerance 1e-9 relative on area/amplitude, 1e-7 on slew"],
             "trusted": TLC_BASE, "exhaustive": True},
+    "C18": {"level": "model_checking", "engines": [("poisson", "poisson", "run")],
+            "rule": "one case per recorded poisson() call (argument tuple x 2 repetitions with differently perturbed numpy RNG) validated as a trace by TLC; non-trivial = the bisection needed at least two probes",
+            "assumptions": ["bisection design checked on a float lattice of 7 (quick) / 8 (thorough) points with every acceleration function", "watchdog 90 s (quick) / 240 s (thorough) per call"],
+            "trusted": TLC_BASE + ["tla2tools Json module", "the harness's own ellipse / calibration-block formulas"]},
     "C09": {
         "level": "model_checking",
         "engines": [("index_maps", "index_maps", "run")],
@@ -36,6 +40,8 @@ PROPS = {
 HOOK_COMMITS = ["609775d"]
 
 ENGINES = [
+    {"name": "poisson", "path": "harness/engines/poisson.py + spec/PoissonSearch.tla, spec/PoissonTrace.tla", "serves_properties": ["C18"],
+     "kind_free_text": "TLC safety+liveness of the bisection design; batch trace validation of recorded poisson() calls"},
     {"name": "trap", "path": "harness/engines/trap.py + spec/Trap.tla, TrapDefs.tla, Spokes.tla, Rat.tla", "serves_properties": ["C20"],
      "kind_free_text": "TLC sweep of rational (G, a) grid and spoke assemblies + replay on trap_grad/min_trap_grad/spokes_grad"},
     {"name": "alg_protocol", "path": "harness/engines/alg_protocol.py + harness/drivers/alg_driver.py + spec/AlgLoop.tla, spec/AlgLoopTrace.tla", "serves_properties": ["C15", "C02"],
@@ -78,4 +84,10 @@ MANIFEST_TEXT = {
 }
 
 NOT_APPLICABLE = {p: "check not built yet in this round (planned, see DESIGN.md section 5)" for p in
-                  ["C05", "C06", "C07", "C08", "C10", "C11", "C12", "C13", "C14", "C16", "C17", "C18", "C19"]}
+                  ["C05", "C06", "C07", "C08", "C10", "C11", "C12", "C13", "C14", "C16", "C17", "C19"]}
+
+MANIFEST_TEXT["C18"] = {
+    "text": "PoissonSearch.tla models the slope bisection on a float lattice with an arbitrary (non-monotone) acceleration function; TLC checks OkIsWithinTol and the liveness property Terminates (the loop without the collapse test is kept as a negative control that must fail). poisson() is run on the real code with _poisson wrapped under a watchdog; every call (probes as slope ranks + integer facts about the mask, RNG state crc, reproducibility memo) is validated by TLC against PoissonTrace.tla.",
+    "design_ref": "DESIGN.md section 5 C18",
+    "note": "Trusted: TLC, Json module, harness formulas for the calibration block and the ellipse. Shapes 16-64 quick, to 128 thorough.",
+    "technique": "TLA+ design spec with liveness + trace validation of wrapped real calls"}
